@@ -235,9 +235,9 @@ def scripted():
 def generate(rng, tier):
     big = tier == 'thorough'
     cases = scripted()
-    for _ in range(900 if not big else 60000):
+    for _ in range(900 if not big else 12000):
         cases.append(gen_history(rng))
-    for _ in range(100 if not big else 3000):
+    for _ in range(100 if not big else 600):
         cases.append(gen_history(rng, malformed=True))
     return cases
 
